@@ -1,6 +1,7 @@
 package core
 
 import (
+	schema "github.com/jsightapi/jsight-schema-core"
 	"github.com/jsightapi/jsight-schema-core/bytes"
 	"github.com/jsightapi/jsight-schema-core/notations/jschema"
 	"github.com/jsightapi/jsight-schema-core/notations/jschema/loader"
@@ -12,9 +13,20 @@ type pSchema struct {
 	*jschema.JSchema
 }
 
-func newPathVariablesSchema(content bytes.Bytes, userTypes map[string]*jschema.JSchema) (*pSchema, error) {
+func newPathVariablesSchema(
+	content bytes.Bytes,
+	userTypes map[string]*jschema.JSchema,
+	rules map[string]schema.Rule,
+) (*pSchema, error) {
 	s := &pSchema{
 		JSchema: jschema.New("", content),
+	}
+
+	// The ENUM directives of the project: a {enum: @name} rule refers to them.
+	for n, r := range rules {
+		if err := s.AddRule(n, r); err != nil {
+			return nil, err
+		}
 	}
 
 	err := s.loadPathVariables()
